@@ -139,8 +139,8 @@ inductive Field where
   | code_key | left_join | filters | sql_key | arguments_key
   -- module level
   | sql | paramstyle | source_text | codeobject_id
-  -- read by a miss branch but never part of a key
-  | scope_classification | outer_names | active_prefetch_context
+  -- read by a miss branch; `tree_kind` (generator expression vs lambda body: `tree.__class__`) is part of the extractors key since 34cb497
+  | tree_kind | scope_classification | outer_names | active_prefetch_context
   deriving DecidableEq, Repr
 
 abbrev Val := List Int
@@ -178,7 +178,7 @@ def astDeps : List Field := [.codeobject_id]
 /-- `create_extractors`: `PreTranslator.postCall` evaluates the called name in the caller's globals/locals and classifies it
     (special function / const function / other); `outer_names` (lambda arguments or the namespace of the previous query) decides
     which names are external -/
-def extractorsDeps : List Field := [.code_key, .scope_classification, .outer_names]
+def extractorsDeps : List Field := [.code_key, .tree_kind, .scope_classification, .outer_names]
 
 /-! ## Part 3: keys with more structure -/
 
@@ -315,12 +315,15 @@ def trMemoHidden (pins hidden : List Int → List Int) (norm : Option Int → Op
     (regenerated from the source: `Gen.CacheKeys.extractorsRecheck`). -/
 structure ExIn where
   code : Int
+  /-- `tree.__class__`: one lambda serves as a whole query (`Entity.select(f)`: a generator tree iterating over `.0`) and as a filter of
+      another query (its body) -/
+  kind : Int
   scope : List Int
   outer : List Int
   deriving DecidableEq, Repr
 
-def exMemo {V : Type} (recheck : Bool) (F : ExIn → V) : Memo ExIn Int (ExIn × V) :=
-  { key := fun i => i.code, skey := fun i => i.code, compute := fun i => (i, F i),
+def exMemo {V : Type} (recheck : Bool) (F : ExIn → V) : Memo ExIn (Int × Int) (ExIn × V) :=
+  { key := fun i => (i.code, i.kind), skey := fun i => (i.code, i.kind), compute := fun i => (i, F i),
     accept := fun i v => !recheck || (decide (v.1.scope = i.scope) && decide (v.1.outer = i.outer)),
     cacheable := fun _ => true, popOnReject := fun _ _ => false }
 
